@@ -331,4 +331,39 @@ theorem sctList_dec (bs : Bytes) (l : List Bytes) (r : Bytes) (h : decSctList bs
   have e2 := concatAll_splitAll serializedSCT decSerializedSCT (fun bs x r h => varVector_takeVarVector _ _ _ _ _ h) _ _ _ h2
   exact ⟨a, by simp [sctList, bind, e2, e1], rfl⟩
 
+theorem wholeSct_iff (b : Bytes) (s : SCT) : wholeSct b = some s ↔ sct s = some b := by
+  constructor
+  · intro h
+    unfold wholeSct at h
+    cases hd : decSct b with
+    | none => simp [hd] at h
+    | some p =>
+      obtain ⟨s', r⟩ := p
+      cases r with
+      | nil =>
+        simp [hd] at h
+        obtain ⟨a, ha, hb⟩ := sct_dec _ _ _ hd
+        subst h
+        simpa [hb] using ha
+      | cons x xs => simp [hd] at h
+  · intro h
+    have := decSct_enc s b [] h
+    simp only [List.append_nil] at this
+    simp [wholeSct, this]
+
+theorem mapM_wholeSct_iff (items : List Bytes) (scts : List SCT) :
+    items.mapM wholeSct = some scts ↔ scts.mapM sct = some items := by
+  induction items generalizing scts with
+  | nil => cases scts <;> simp [List.mapM_cons, bind, Option.bind_eq_some_iff]
+  | cons b bs ih =>
+    cases scts with
+    | nil => simp [List.mapM_cons, bind, Option.bind_eq_some_iff]
+    | cons s ss =>
+      simp only [List.mapM_cons, bind, Option.bind_eq_some_iff, pure, Option.some.injEq, List.cons.injEq]
+      constructor
+      · rintro ⟨s', h1, ss', h2, rfl, rfl⟩
+        exact ⟨b, (wholeSct_iff _ _).1 h1, bs, (ih _).1 h2, rfl, rfl⟩
+      · rintro ⟨b', h1, bs', h2, rfl, rfl⟩
+        exact ⟨s, (wholeSct_iff _ _).2 h1, ss, (ih _).2 h2, rfl, rfl⟩
+
 end Rfc
